@@ -6,7 +6,7 @@ from hv.worlds import profile
 CFG = hprop.HistoryProperty(
     prop="C02",
     monitors=lambda: [C02Counts()],
-    profile=profile(nv=(2, 7), socs=[0.0005, 0.003, 0.05, 0.3, 0.8, 0.97, 0.995], n_requests=(0, 12), fleets=[0, 0, 0, 2], max_plugs=1, stations=(1, 2)),
+    profile=profile(nv=(2, 7), socs=[0.0005, 0.003, 0.05, 0.3, 0.8, 0.97, 0.995], n_requests=(0, 12), fleets=[0, 0, 0, 2], max_plugs=2, stations=(1, 2)),
     nontrivial=lambda f: {"arrival_at_full_station", "exit_resource_by_instruction", "rejected_from_resource_holder"} <= f,
     rule=("stateful histories (Hypothesis RuleBasedStateMachine) over generated file-based worlds with 1-2 plugs per type and "
           "1-2 stalls: adversarial instruction directives resolved against the live state + built-in generators + steps; after "
